@@ -29,8 +29,11 @@ def run(ctx):
     docs = [D.document(rng) for _ in range(ctx.n(5000, 60000))]
     # corpus: documents of the recorded finding F17 (MIME container content types) run first
     docs = [[[['Content-Type', 'multipart/mixed', []], ['A', 'b', []]]],
-            [[['Package', 'x', []]], [['content-type', 'Message/rfc822; x=y', [' more']], ['B', 'c', []]]]] + docs
-    for d in docs[2:]:
+            [[['Package', 'x', []]], [['content-type', 'Message/rfc822; x=y', [' more']], ['B', 'c', []]]],
+            # ASCII text that an encoding detector may take for UTF-7 / HZ: the file route must read it as the text does
+            [[['A', 'a+AOk-b', []], ['B', '~{abcd~}', [' ~{x~} +AOk-']]]],
+            [[['Description', 'x +ZeVnLIqe- y', [' +AGEAYgBj-', ' ~{<:Ky2;S{#,NpJ)l6HK!#~}']]], [['C', '~~ ~{', []]]]] + docs
+    for d in docs[4:]:
         if rng.random() < .01:
             d[0] = [f for f in d[0] if f[0].lower() != 'content-type'] + \
                 [['Content-Type', rng.choice(['multipart/mixed; boundary=x', 'message/rfc822', 'MULTIPART/alternative', 'text/plain', 'multipart']), []]]
